@@ -36,7 +36,8 @@ def gen_pairs(ctx: core.Ctx, n: int) -> list[tuple[str, str]]:
 
 
 BUMP_REL = ["1", "0", "2.0", "1.2", "0.0", "0.5", "1.2.3", "0.0.3", "0.1.0", "2.0.0", "1.2.3.4", "0.0.0.1", "1.0.0.0", "3.1.4.1.5"]
-BUMP_SUF = ["", "", "a1", "b2", "rc1", ".post1", ".dev0", ".dev3", "a1.dev2", ".post2.dev1", "rc1.post3"]
+# incl. upper-case and alternative spellings of the segments (the operator patterns are case-insensitive regexes)
+BUMP_SUF = ["", "", "a1", "b2", "rc1", ".post1", ".dev0", ".dev3", "a1.dev2", ".post2.dev1", "rc1.post3", "RC1", ".Post3", ".DEV1", "A2", "-Beta.3"]
 BUMP_EPOCH = ["", "", "", "1!", "2!"]
 METHODS = ["next_major", "next_minor", "next_patch", "next_breaking", "stable", "first_devrelease", "first_prerelease", "next_stable",
            "next_prerelease", "next_postrelease", "next_devrelease", "without_local", "without_postrelease", "without_devrelease"]
@@ -129,7 +130,7 @@ def check_bumps(ctx: core.Ctx, versions: list[str], stream: str) -> None:
 
 def correspondence(ctx: core.Ctx) -> None:
     vc_engine.run_pairs(ctx, CORPUS, "corpus", WHICH)
-    check_bumps(ctx, ["1!1.2.3.4", "2!0.0.3.dev1", "1!1.2.3.4rc1", "0", "0.0", "0.0.0", "1.0a1", "1!2.0.post1.dev0"] + bump_versions(ctx, ctx.budget(260, None)), "bumps")
+    check_bumps(ctx, ["1!1.2.3.4", "2!0.0.3.dev1", "1!1.2.3.4rc1", "0", "0.0", "0.0.0", "1.0a1", "1!2.0.post1.dev0", "1.4.5RC1", "V1.2", "2.2.Post3", "1!2.3.DEV1"] + bump_versions(ctx, ctx.budget(260, None)), "bumps")
     n = ctx.budget(1500, 40000)
     pairs = gen_pairs(ctx, n)
     for k in range(0, len(pairs), 2000):
